@@ -266,7 +266,7 @@ def verify_unit(loader, contract, registry, timeout_ms=20000, max_paths=MAX_PATH
     res.lineno = base.lineno
     res.source = "%s:%d" % (base.module.path, base.lineno)
     loops = dict(registry.loops)
-    work = [[]]
+    work = [([], [])]
     while work:
         if res.paths >= max_paths:
             res.demoted = "more than %d paths" % max_paths
@@ -274,17 +274,18 @@ def verify_unit(loader, contract, registry, timeout_ms=20000, max_paths=MAX_PATH
         if deadline is not None and time.time() > deadline:
             res.demoted = "time budget exhausted after %d paths" % res.paths
             break
-        dec = work.pop()
+        dec, replay = work.pop()
         reset_oids()
         E = Engine(loader, dec, contracts=registry.contracts, loops=loops, unit=contract.target,
-                   timeout_ms=timeout_ms, tables=registry.tables, inline=contract.inline)
+                   timeout_ms=timeout_ms, tables=registry.tables, inline=contract.inline, replay=replay)
         E.path_id = "".join(str(d) for d in dec)
         try:
             run_path(E, contract, fn, res)
             res.paths += 1
         except Fork as f:
             for k in reversed(range(f.n)):
-                work.append(dec + [k])
+                work.append((dec + [k], E.qlog))
+            res.obligations.extend(E.obligations)       # obligations met before the fork: reported once, here
             continue
         except PathEnd as pe:
             res.paths += 1
@@ -561,12 +562,12 @@ class Lemma:
         res.props = self.props
         res.source = "lemma"
         t0 = time.time()
-        work = [[]]
+        work = [([], [])]
         while work:
-            dec = work.pop()
+            dec, replay = work.pop()
             reset_oids()
             E = Engine(loader, dec, contracts=registry.contracts, loops=dict(registry.loops), unit=None,
-                       timeout_ms=timeout_ms, tables=registry.tables)
+                       timeout_ms=timeout_ms, tables=registry.tables, replay=replay)
             E.path_id = "".join(str(d) for d in dec)
             try:
                 self.fn(E)
@@ -574,7 +575,8 @@ class Lemma:
                 res.outcomes += 1
             except Fork as f:
                 for k in reversed(range(f.n)):
-                    work.append(dec + [k])
+                    work.append((dec + [k], E.qlog))
+                res.obligations.extend(E.obligations)
                 continue
             except PathEnd:
                 res.paths += 1
